@@ -1,17 +1,11 @@
 ---------------------------- MODULE MCStyledCases ----------------------------
 (* C33, M + G for the one-step operations.  Every initial state is one case (operation +
    arguments); TLC checks the content/normality laws of the reference on it (LawOK) and prints the
-   case with the set of results the specification accepts (Emit).  One TLC run per operation
-   (INIT InitT / InitConcat / ...), bounds from the CONSTANTs, alphabets chosen per operation so that
-   the enumeration stays exhaustive for its scope. *)
+   case with the set of results the specification accepts (Emit).  INIT InitAll enumerates all
+   operations (or one: InitT / InitConcat / ...); the scope of each operation (ScopeOf) depends on
+   the tier, with an alphabet chosen per operation so that the enumeration stays exhaustive. *)
 EXTENDS StyledText, TLC, Json, SequencesExt
-CONSTANTS MaxSegs,   \* segments per text
-          MaxChars,  \* chars per segment
-          MaxW,      \* widths 0..MaxW (and -1, Unspecified) for trim
-          NStyles,   \* 2..4 styles for the input texts
-          Alpha,     \* alphabet selector, see AlphaOf
-          MaxIx,     \* number of partition indices
-          MaxScript  \* TextBuilder script length
+CONSTANT Tier      \* 1 = quick scopes, 2 = thorough scopes
 VARIABLE c
 
 CA == Char(97, 1, 1)       \* a
@@ -26,62 +20,86 @@ AlphaOf(k) == CASE k = 1 -> {CA, CW, CZ}
                 [] k = 4 -> {CA, CW}
                 [] k = 5 -> {CA, CW, CZ, CN}
                 [] k = 6 -> {CA, CE, CW}
-Chars == AlphaOf(Alpha)
+
+\* scope of an operation: ms segments per text, mc chars per segment, ns styles, al alphabet,
+\* mw widths 0..mw (and -1), mi partition indices, sl TextBuilder script length
+Scope(ms, mc, ns, al, mw, mi, sl) == [ms |-> ms, mc |-> mc, ns |-> ns, al |-> al, mw |-> mw, mi |-> mi, sl |-> sl]
+ScopeOf(op) ==
+  IF Tier = 1
+  THEN CASE op = "t"         -> Scope(1, 2, 2, 5, 0, 0, 0)
+         [] op = "concat"    -> Scope(2, 1, 3, 4, 0, 0, 0)
+         [] op = "concat3"   -> Scope(1, 1, 3, 4, 0, 0, 0)
+         [] op = "partition" -> Scope(2, 2, 2, 3, 0, 2, 0)
+         [] op = "split"     -> Scope(2, 2, 3, 2, 0, 0, 0)
+         [] op = "trim"      -> Scope(2, 2, 3, 1, 4, 0, 0)
+         [] op = "style"     -> Scope(2, 2, 3, 4, 0, 0, 0)
+         [] op = "styleseg"  -> Scope(1, 2, 4, 4, 0, 0, 0)
+         [] op = "tb"        -> Scope(2, 1, 2, 4, 0, 0, 2)
+  ELSE CASE op = "t"         -> Scope(1, 3, 2, 5, 0, 0, 0)
+         [] op = "concat"    -> Scope(2, 2, 3, 4, 0, 0, 0)
+         [] op = "concat3"   -> Scope(2, 1, 3, 4, 0, 0, 0)
+         [] op = "partition" -> Scope(3, 2, 2, 3, 0, 2, 0)
+         [] op = "split"     -> Scope(3, 2, 3, 2, 0, 0, 0)
+         [] op = "trim"      -> Scope(3, 2, 3, 1, 7, 0, 0)
+         [] op = "style"     -> Scope(3, 1, 4, 4, 0, 0, 0)
+         [] op = "styleseg"  -> Scope(1, 2, 4, 5, 0, 0, 0)
+         [] op = "tb"        -> Scope(2, 1, 2, 4, 0, 0, 3)
 
 Red  == [fg |-> "red", bg |-> "", at |-> 0]
 Bold == [fg |-> "", bg |-> "", at |-> 1]
 RedB == [fg |-> "red", bg |-> "", at |-> 1]
 StyleList == <<DefaultStyle, Red, Bold, RedB>>
-Styles == {StyleList[i] : i \in 1..NStyles}
+Styles(sc) == {StyleList[i] : i \in 1..sc.ns}
 
 G(k, col, b) == [k |-> k, c |-> col, b |-> b]
 StylingSeqs == {<<>>, <<G("fg", "red", 0)>>, <<G("fg", "", 0)>>, <<G("on", "", 1)>>, <<G("off", "", 1)>>,
                 <<G("toggle", "", 1)>>, <<G("reset", "", 0)>>, <<G("fg", "#0a0b0c", 0), G("on", "", 32)>>,
                 <<G("bg", "blue", 0)>>, <<G("toggle", "", 1), G("fg", "red", 0)>>}
 
-RECURSIVE StringsLen(_)
-StringsLen(n) == IF n = 0 THEN {<<>>} ELSE {<<ch>> \o s : ch \in Chars, s \in StringsLen(n - 1)}
-Strings == UNION {StringsLen(n) : n \in 1..MaxChars}
+RECURSIVE StringsLen(_, _)
+StringsLen(sc, n) == IF n = 0 THEN {<<>>} ELSE {<<ch>> \o s : ch \in AlphaOf(sc.al), s \in StringsLen(sc, n - 1)}
+Strings(sc) == UNION {StringsLen(sc, n) : n \in 1..sc.mc}
 
-RECURSIVE SegsLen(_)
-SegsLen(k) == IF k = 0 THEN {<<>>}
-              ELSE {x \in {<<Seg(st, cs)>> \o rest : st \in Styles, cs \in Strings, rest \in SegsLen(k - 1)} :
-                      Len(x) = 1 \/ x[1].st # x[2].st}
-Texts == {Txt(segs) : segs \in UNION {SegsLen(k) : k \in 0..MaxSegs}}
+RECURSIVE SegsLen(_, _)
+SegsLen(sc, k) == IF k = 0 THEN {<<>>}
+                  ELSE {x \in {<<Seg(st, cs)>> \o rest : st \in Styles(sc), cs \in Strings(sc), rest \in SegsLen(sc, k - 1)} :
+                          Len(x) = 1 \/ x[1].st # x[2].st}
+Texts(sc) == {Txt(segs) : segs \in UNION {SegsLen(sc, k) : k \in 0..sc.ms}}
 
-\* (the case sets take a dummy parameter so that TLC does not evaluate all of them at startup)
 Case(op) == [op |-> op, t |-> NilText, ts |-> <<>>, ix |-> <<>>, w |-> 0, gs |-> <<>>, r |-> 0, s |-> <<>>]
 
-CasesT(z)       == {[Case("t") EXCEPT !.s = s, !.gs = gs] : s \in Strings \cup {<<>>}, gs \in StylingSeqs}
-CasesConcat(z)  == {[Case("concat") EXCEPT !.ts = ts] :
-                   ts \in {<<>>} \cup {<<a>> : a \in Texts} \cup {<<a, b>> : a \in Texts, b \in Texts}}
-CasesConcat3(z) == {[Case("concat") EXCEPT !.ts = <<a, b, d>>] : a \in Texts, b \in Texts, d \in Texts}
+CasesT(sc)       == {[Case("t") EXCEPT !.s = s, !.gs = gs] : s \in Strings(sc) \cup {<<>>}, gs \in StylingSeqs}
+CasesConcat(sc)  == LET T == Texts(sc) IN
+                    {[Case("concat") EXCEPT !.ts = ts] : ts \in {<<>>} \cup {<<a>> : a \in T} \cup {<<a, b>> : a \in T, b \in T}}
+CasesConcat3(sc) == LET T == Texts(sc) IN {[Case("concat") EXCEPT !.ts = <<a, b, d>>] : a \in T, b \in T, d \in T}
 RECURSIVE IxLen(_, _)
 IxLen(n, hi) == IF n = 0 THEN {<<>>} ELSE {<<i>> \o s : i \in (-1)..hi, s \in IxLen(n - 1, hi)}
-CasesPartition(z) == {[Case("partition") EXCEPT !.t = t, !.ix = ix] :
-                     t \in Texts, ix \in UNION {IxLen(n, MaxSegs * MaxChars * 3 + 1) : n \in 0..MaxIx}}
 \* indices further than 1 beyond the text's own length add nothing
+CasesPartition(sc) == {[Case("partition") EXCEPT !.t = t, !.ix = ix] :
+                         t \in Texts(sc), ix \in UNION {IxLen(n, sc.ms * sc.mc * 3 + 1) : n \in 0..sc.mi}}
 NearIx(cc) == \A i \in 1..Len(cc.ix) : cc.ix[i] <= SumB(Plain(cc.t)) + 1
-CasesSplit(z)   == {[Case("split") EXCEPT !.t = t, !.r = r] : t \in Texts, r \in {10, 97}}
-CasesTrim(z)    == {[Case("trim") EXCEPT !.t = t, !.w = w] : t \in Texts, w \in (-1)..MaxW}
-CasesStyle(z)   == {[Case("style") EXCEPT !.t = t, !.gs = gs] : t \in Texts, gs \in StylingSeqs}
-CasesStyleSeg(z) == {[Case("styleseg") EXCEPT !.t = [nil |-> FALSE, segs |-> <<Seg(st, cs)>>], !.gs = gs] :
-                     st \in Styles, cs \in Strings \cup {<<>>}, gs \in StylingSeqs}
+CasesSplit(sc)   == {[Case("split") EXCEPT !.t = t, !.r = r] : t \in Texts(sc), r \in {10, 97}}
+CasesTrim(sc)    == {[Case("trim") EXCEPT !.t = t, !.w = w] : t \in Texts(sc), w \in (-1)..sc.mw}
+CasesStyle(sc)   == {[Case("style") EXCEPT !.t = t, !.gs = gs] : t \in Texts(sc), gs \in StylingSeqs}
+CasesStyleSeg(sc) == {[Case("styleseg") EXCEPT !.t = [nil |-> FALSE, segs |-> <<Seg(st, cs)>>], !.gs = gs] :
+                        st \in Styles(sc), cs \in Strings(sc) \cup {<<>>}, gs \in StylingSeqs}
 \* TextBuilder scripts: ts[i] is written at step i; ix[i] = 1 means Reset() before that write
-RECURSIVE Scripts(_)
-Scripts(n) == IF n = 0 THEN {[ts |-> <<>>, ix |-> <<>>]}
-              ELSE {[ts |-> <<t>> \o s.ts, ix |-> <<z>> \o s.ix] : t \in Texts, z \in {0, 1}, s \in Scripts(n - 1)}
-CasesTB(z)      == {[Case("tb") EXCEPT !.ts = s.ts, !.ix = s.ix] : s \in UNION {Scripts(n) : n \in 0..MaxScript}}
+RECURSIVE Scripts(_, _)
+Scripts(T, n) == IF n = 0 THEN {[ts |-> <<>>, ix |-> <<>>]}
+                 ELSE {[ts |-> <<t>> \o s.ts, ix |-> <<z>> \o s.ix] : t \in T, z \in {0, 1}, s \in Scripts(T, n - 1)}
+CasesTB(sc)      == LET T == Texts(sc) IN
+                    {[Case("tb") EXCEPT !.ts = s.ts, !.ix = s.ix] : s \in UNION {Scripts(T, n) : n \in 0..sc.sl}}
 
-InitT         == c \in CasesT(0)
-InitConcat    == c \in CasesConcat(0)
-InitConcat3   == c \in CasesConcat3(0)
-InitPartition == c \in {cc \in CasesPartition(0) : NearIx(cc)}
-InitSplit     == c \in CasesSplit(0)
-InitTrim      == c \in CasesTrim(0)
-InitStyle     == c \in CasesStyle(0)
-InitStyleSeg  == c \in CasesStyleSeg(0)
-InitTB        == c \in CasesTB(0)
+InitT         == c \in CasesT(ScopeOf("t"))
+InitConcat    == c \in CasesConcat(ScopeOf("concat"))
+InitConcat3   == c \in CasesConcat3(ScopeOf("concat3"))
+InitPartition == c \in {cc \in CasesPartition(ScopeOf("partition")) : NearIx(cc)}
+InitSplit     == c \in CasesSplit(ScopeOf("split"))
+InitTrim      == c \in CasesTrim(ScopeOf("trim"))
+InitStyle     == c \in CasesStyle(ScopeOf("style"))
+InitStyleSeg  == c \in CasesStyleSeg(ScopeOf("styleseg"))
+InitTB        == c \in CasesTB(ScopeOf("tb"))
+InitAll == InitT \/ InitConcat \/ InitConcat3 \/ InitPartition \/ InitSplit \/ InitTrim \/ InitStyle \/ InitStyleSeg \/ InitTB
 Next == UNCHANGED c
 
 LawOK ==
